@@ -163,6 +163,35 @@ func ruleF1(c *Ctx) *RuleResult {
 			}
 		}
 	}
+	// thin wrappers of the three stream functions that forward their own time parameters count as the function itself
+	isRot := map[*ssa.Function]bool{rs: true, rp: true, cf: true}
+	for _, g := range c.Funcs {
+		if !InRootPkg(g) || isRot[g] || g.Signature.Recv() == nil || !typeIs(g.Signature.Recv().Type(), modPath, "muxerStream") {
+			continue
+		}
+		calls, forwards := 0, true
+		allInstrs(g, func(in ssa.Instruction) {
+			call, ok := in.(*ssa.Call)
+			if !ok {
+				return
+			}
+			if h := call.Call.StaticCallee(); h == rs || h == rp || h == cf {
+				calls++
+				for _, a := range call.Call.Args[1:] {
+					if typeIs(a.Type(), "time", "Duration") || typeIs(a.Type(), "time", "Time") {
+						if _, isParam := a.(*ssa.Parameter); !isParam {
+							forwards = false
+						}
+					}
+				}
+			} else if h != nil && InRootPkg(h) {
+				forwards = false // does more than forwarding
+			}
+		})
+		if calls == 1 && forwards && len(g.Blocks) <= 2 {
+			isRot[g] = true
+		}
+	}
 	// Muxer.rotate*Inner pass their own parameters to every stream
 	for _, name := range []string{"rotateSegmentsInner", "rotatePartsInner", "createFirstSegment"} {
 		fn := c.Method("", "Muxer", name)
@@ -177,7 +206,7 @@ func ruleF1(c *Ctx) *RuleResult {
 				return
 			}
 			g := call.Call.StaticCallee()
-			if g != rs && g != rp && g != cf {
+			if !isRot[g] {
 				return
 			}
 			n++
@@ -202,12 +231,14 @@ func ruleF1(c *Ctx) *RuleResult {
 		loopCall := false
 		allInstrs(fn, func(in ssa.Instruction) {
 			if call, ok := in.(*ssa.Call); ok {
-				if g := call.Call.StaticCallee(); (g == rs || g == rp || g == cf) && inLoop(in) {
+				if g := call.Call.StaticCallee(); isRot[g] && inLoop(in) {
 					loopCall = true
 				}
 			}
 		})
-		if n < 2 && !(n == 1 && loopCall) {
+		if n == 0 {
+			r.undecided("F1: %s calls none of the per-stream rotation functions directly: form not known to the rule", FuncName(fn))
+		} else if n < 2 && !(n == 1 && loopCall) {
 			r.fail(FuncName(fn)+"|all-streams", c.Pos(fn.Pos()), FuncName(fn), "the leading stream and every other stream are rotated", fmt.Sprintf("%d call site(s)", n))
 		}
 	}
@@ -800,15 +831,31 @@ func ruleF7(c *Ctx) *RuleResult {
 	}
 	// runTraditional: between two fillSegmentQueue calls every path passes waitUntilSizeIsBelow and downloadPlaylist
 	if rt := c.Method("", sd, "runTraditional"); rt != nil {
-		fill := c.Method("", sd, "fillSegmentQueue")
 		wait := c.Method("", "clientSegmentQueue", "waitUntilSizeIsBelow")
 		dl := c.Method("", sd, "downloadPlaylist")
-		var fills []ssa.Instruction
-		allInstrs(rt, func(in ssa.Instruction) {
-			if staticCallee(in) == fill {
-				fills = append(fills, in)
+		ds := c.Method("", sd, "downloadSegment")
+		// a download site: a call (in runTraditional) of a library function that reaches downloadSegment
+		reachesDS := map[*ssa.Function]bool{}
+		isFill := func(x ssa.Instruction) bool {
+			g := staticCallee(x)
+			if g == nil || ds == nil || !InRootPkg(g) {
+				return false
 			}
-		})
+			if v, ok := reachesDS[g]; ok {
+				return v
+			}
+			v := g == ds || c.reach([]*ssa.Function{g}, func(f *ssa.Function) bool { return !InRootPkg(f) })[ds]
+			reachesDS[g] = v
+			return v
+		}
+		var fills []ssa.Instruction
+		if wait != nil && dl != nil && ds != nil {
+			allInstrs(rt, func(in ssa.Instruction) {
+				if isFill(in) {
+					fills = append(fills, in)
+				}
+			})
+		}
 		for i, f := range fills {
 			for _, must := range []struct {
 				g    *ssa.Function
@@ -816,7 +863,7 @@ func ruleF7(c *Ctx) *RuleResult {
 				why  string
 			}{{wait, "throttle", "the downloader runs ahead of the processor without bound"}, {dl, "refetch", "the next segment is looked up in a stale playlist"}} {
 				key := fmt.Sprintf("runTraditional|%s-between-downloads#%d", must.name, i+1)
-				skip := pathAvoidingRaw(rt, f, func(x ssa.Instruction) bool { return staticCallee(x) == must.g }, func(x ssa.Instruction) bool { return staticCallee(x) == fill })
+				skip := pathAvoidingRaw(rt, f, func(x ssa.Instruction) bool { return staticCallee(x) == must.g }, isFill)
 				if !skip {
 					r.ok(key, c.Pos(f.Pos()), FuncName(rt), "between two segment downloads every path calls "+must.g.Name(), "no bypass")
 				} else {
@@ -977,6 +1024,8 @@ func ruleF7(c *Ctx) *RuleResult {
 			})
 			if okDist {
 				r.ok("findSegmentWithID|distance", c.Pos(byID.Pos()), FuncName(byID), "the distance from the live edge is len(segments) - index", "third result")
+			} else if byID.Signature.Results().Len() != 3 {
+				r.undecided("F7: findSegmentWithID no longer returns (segment, index, distance): form not known to the rule")
 			} else {
 				r.fail("findSegmentWithID|distance", c.Pos(byID.Pos()), FuncName(byID), "the distance from the live edge is len(segments) - index", "third result has another form: the `more than five segments behind` limit is off by one")
 			}
@@ -1014,7 +1063,7 @@ func ruleF8(c *Ctx) *RuleResult {
 					n++
 					key := fmt.Sprintf("%s|%s.%s#%d", FuncName(fn), spec.typ, fname, n)
 					call, ok := st.Val.(*ssa.Call)
-					if ok && call.Call.StaticCallee() != nil && call.Call.StaticCallee().Name() == "convert" {
+					if ok && call.Call.StaticCallee() != nil && (call.Call.StaticCallee().Name() == "convert" || c.isLeadingConvCall(call)) {
 						r.ok(key, c.Pos(st.Pos()), FuncName(fn), "the timestamp handed to the track processor is the leading converter's result", FuncName(call.Call.StaticCallee()))
 					} else {
 						r.fail(key, c.Pos(st.Pos()), FuncName(fn), "the timestamp handed to the track processor is the leading converter's result", "assigned "+st.Val.String()+": tracks lose their common origin")
@@ -1531,4 +1580,53 @@ func ruleF9(c *Ctx) *RuleResult {
 	}
 	r.Instances = n
 	return r
+}
+
+
+// isLeadingConvCall: call is a method call whose receiver is the client's leading time converter — a value that
+// comes (through type assertions and small accessor functions) from the field Client.leadingTimeConv — and that
+// returns a timestamp.
+func (c *Ctx) isLeadingConvCall(call *ssa.Call) bool {
+	convF := c.Field("", "Client", "leadingTimeConv")
+	g := call.Call.StaticCallee()
+	if convF == nil || g == nil || g.Signature.Recv() == nil || len(call.Call.Args) == 0 {
+		return false
+	}
+	if g.Signature.Results().Len() != 1 || !isTimestampType(g.Signature.Results().At(0).Type()) {
+		return false
+	}
+	var from func(v ssa.Value, depth int) bool
+	from = func(v ssa.Value, depth int) bool {
+		if depth > 6 {
+			return false
+		}
+		v = stripAsserts(v)
+		if f, _ := loadedField(v); f == convF {
+			return true
+		}
+		x, ok := v.(*ssa.Call)
+		if !ok {
+			return false
+		}
+		var callees []*ssa.Function
+		if sc := x.Call.StaticCallee(); sc != nil {
+			callees = []*ssa.Function{sc}
+		} else {
+			callees = c.calleesOf(x)
+		}
+		for _, h := range callees {
+			if !InRootPkg(h) || h.Blocks == nil {
+				continue
+			}
+			for _, b := range h.Blocks {
+				if ret, ok := b.Instrs[len(b.Instrs)-1].(*ssa.Return); ok && len(ret.Results) >= 1 {
+					if from(retVal(ret, 0), depth+1) {
+						return true
+					}
+				}
+			}
+		}
+		return false
+	}
+	return from(call.Call.Args[0], 0)
 }
